@@ -173,6 +173,21 @@ CHECKS = {
         note="Faithfulness is by definition in the wrapper model, so the weight is on the lock-step correspondence; the "
              "allocator (exactly-once release) is a runtime fact checked by LSan/ASan; caller-contract violations "
              "(index >= size in ada_strings_get, use after free) are not generated."),
+
+    "C02": dict(
+        technique="Lean 4 proof of index bounds / output-size bounds / loop measures of the modelled code and strict-weak-"
+                  "order of the sort comparator; every entry point run on arbitrary bytes in exact-size buffers under "
+                  "ASan+UBSan+LSan with a watchdog",
+        text="Lean 4 theorems (all inputs): every modelled table index is in range (hex rows, bitmaps, 256-entry byte "
+             "tables, scheme hash, hex_to_binary under its guard), SIMD loads lie inside the buffer and the tail block never "
+             "reaches before the start position, percent/form decoders never read past the end nor outgrow the input, the "
+             "sort decoder always makes progress, the comparator is a strict weak order. Runtime part: one operation drives "
+             "parse/can_parse/all setters/search params/IDNA/decoders/href_from_file/C API/URLPattern on arbitrary bytes "
+             "(malformed UTF-8, NULs, truncated escapes at the very end) in exact-size heap buffers; any sanitizer report, "
+             "crash, exception or watchdog timeout is a violation with the offending operation as replay.",
+        design_ref="DESIGN.md §5 C02", category="proof",
+        note="partial by nature: memory safety of C++ is not a theorem; uninitialised reads (MSan), allocation failure and "
+             "real termination are outside the model; the sanitizer exploration is supporting evidence, not proof."),
 }
 
 NOT_YET = "check not built yet (work in progress in this session; see DESIGN.md §8 build order)"
